@@ -29,8 +29,8 @@ CLAIMED = {
          "multi-patterns are built through the crate's MultiPattern::parse (its fields are private); sampling"),
  "C06": ("sess", "7 C06", "seeded long histories over LS and rewriting runs over LA (part C06R) (cyclic classes, redundant slots, symmetric classes), three strictly monotone cost functions; every live class with a finite term is extracted under the identity, a renamed and an own-slot-permuting invocation; membership by lookup_rec_expr + eq, cost recomputed on the term, minimality against value iteration M_cost, free slots of the result",
          "M_cost value iteration over enodes(); classes without a finite term are out of scope; sampling"),
- "C07": ("expl", "7 C07", "explanations build: seeded histories with add_syn_expr / union_justified, and (part C07R) single rule applications on planted instances; for sampled equal pairs under all relative renamings, and for congruent query terms that were never inserted, explain_equivalence must return and the proof DAG is re-checked node by node on terms by the independent checker M_proof; explicit leaves must be instances of an asserted equation or of the applied rule, with their justification; the conclusion must be the queried pair",
-         "M_proof reads proofs only through ProvenEqRaw::proof/equ and get_syn_expr; no long saturation runs; sampling"),
+ "C07": ("expl", "7 C07", "explanations build: seeded histories with add_syn_expr / union_justified, (part C07R) single rule applications on planted instances, and (part C07S) saturation runs over LA (apply_rewrites / Runner::run with the C03 rule pool, conditional rules, rules that move terms under binders) after which inserted terms are explained against the smallest term of their class and against each other; for sampled equal pairs under all relative renamings, and for congruent query terms that were never inserted, explain_equivalence must return and the proof DAG is re-checked node by node on terms by the independent checker M_proof; explicit leaves must be instances of an asserted equation or of the applied rule, with their justification; the conclusion must be the queried pair",
+         "M_proof reads proofs only through ProvenEqRaw::proof/equ and get_syn_expr; C07S runs without the b[x := t] rule and without the modify hook; sampling"),
  "C14": ("rw", "7 C14", "seeded LA histories of insertions, raw unions (runs without modify) and rewrite iterations with the simulator's analysis (min size, min depth, constant mod p with modify hook, a bounded height joined with max that grows along cycles); after every operation every live class's datum is recomputed as the join of make over its e-nodes, size equals value-iteration min cost, constants equal the class's model table, equal invocations share one datum",
          "in runs with raw (not model-valid) unions the constant component is excluded (make is not monotone once two constants are joined); sampling"),
  "C15": ("rw", "7 C15", "Runner::run, run_eqsat, bare apply_rewrites loops and a symmetry-growth loop under seeded iteration/node/time limits, a simulated clock (stalled, auto-step per read, jumps inside searchers and between iterations) and a hook failing at a seeded iteration; truth table of the stop reason in the final state (strict for Runner, as coded >= for run_eqsat), one more application after Saturated changes nothing, apply_rewrites == false implies an unchanged independent fingerprint (no use of progress()), iteration bound, report node count",
